@@ -12,11 +12,18 @@
 (* real code to both.                                                      *)
 (*                                                                         *)
 (* Characters are code points (Nat).  Octets are 0..255.                   *)
+(*   3. the symbol level: which zone-file symbols denote a codec character *)
+(*      (SymChar), the three SymbolConverters transcribed (one action per  *)
+(*      process_symbol / process_tail), the NSEC3 salt wrapper and the     *)
+(*      SVCB "ech" reading - tied to 1 by ConvEqualsFunction.              *)
 (* Named deviations (see DESIGN.md 2.6) in Dev:                            *)
 (*   D_b64_push_after_badpad   "xx=x" leaves next = 4: next push indexes   *)
 (*                             buf[4] (panic)                              *)
 (*   D_b64_illegal_not_latched an illegal character is reported but not    *)
 (*                             remembered; finalize may later say Ok       *)
+(*   D_iter_bad_escape_ends_token  IterScanner drops the rest of a token   *)
+(*                             at a malformed escape instead of failing    *)
+(*                             (cases only: TruncAtBad)                    *)
 (***************************************************************************)
 EXTENDS Naturals, Sequences, FiniteSets
 
@@ -247,4 +254,176 @@ EncOf(codec, o) ==
 RECURSIVE RunPushes(_, _, _)
 RunPushes(codec, st, t) ==
   IF t = <<>> THEN st ELSE RunPushes(codec, PushOf(codec, st, Head(t)).st, Tail(t))
+--------------------------------------------------------------------------
+(* The symbol level (src/base/scan.rs `Symbol`, `EntrySymbol`).            *)
+(*                                                                         *)
+(* Presentation-format text reaches the codecs as a sequence of *symbols*: *)
+(*   [k |-> "c", v |-> code point]   Symbol::Char          an unescaped    *)
+(*                                   Unicode character                     *)
+(*   [k |-> "s", v |-> octet]        Symbol::SimpleEscape  `\X`            *)
+(*   [k |-> "d", v |-> octet]        Symbol::DecimalEscape `\DDD`          *)
+(*   [k |-> "e", v |-> 0]            EntrySymbol::EndOfToken               *)
+(*                                                                         *)
+(* Which symbols denote a codec *character* (reference: the documentation  *)
+(* of `Symbol` and of `Symbol::into_char`, and the behaviour of the pinned *)
+(* tree): an unescaped character denotes itself; a simple escape "is only  *)
+(* allowed for printable ASCII characters" and denotes that character      *)
+(* (`\Q` is `Q`); a decimal escape is "a raw octet escaped using the       *)
+(* decimal escape sequence", i.e. data, and "doesn't actually represent a  *)
+(* character" - into_char fails for it whatever its value.  So `Zm9\118`   *)
+(* is not Base64 text although octet 118 is the ASCII code of `v` (this is *)
+(* also what BIND does: escapes are not resolved inside Base-N fields).    *)
+(* NoChar is a code point outside Unicode: it is in no alphabet and is not *)
+(* the padding character, so the RFC 4648 functions reject any text that   *)
+(* contains it.                                                            *)
+
+NoChar == 1114112
+EOT == [k |-> "e", v |-> 0]
+IsPrintable(v) == v >= 32 /\ v < 127
+
+SymChar(sym) ==
+  CASE sym.k = "c" -> sym.v
+    [] sym.k = "s" -> IF IsPrintable(sym.v) THEN sym.v ELSE NoChar
+    [] sym.k = "d" -> NoChar
+
+\* Symbol::into_octet - what character strings (and the SVCB parameter
+\* values, RFC 9460 appendix A: "decode the char-string first") make of a
+\* symbol: printable ASCII, plain or escaped, or any decimal escape
+SymOctet(sym) ==
+  CASE sym.k = "c" -> IF IsPrintable(sym.v) THEN sym.v ELSE NoChar
+    [] OTHER -> sym.v
+
+SymsOf(esyms) == SelectSeq(esyms, LAMBDA s : s.k # "e")          \* token boundaries carry no data
+CharsOf(esyms) == LET y == SymsOf(esyms) IN [i \in 1..Len(y) |-> SymChar(y[i])]
+AllPlain(esyms) == \A i \in 1..Len(esyms) : esyms[i].k = "c"
+
+\* What the *string* API (decode, Decoder::push, FromStr) makes of the
+\* written form of the symbols: it knows no escapes, a backslash is just a
+\* character outside every alphabet.
+StrDecOf(codec, syms) == IF AllPlain(syms) THEN DecOf(codec, CharsOf(syms)) ELSE Err
+
+\* NSEC3 salt (RFC 5155 3.3): a single "-" is the empty salt, otherwise Base16
+SaltDec(chars) ==
+  IF chars = <<45>> THEN Ok(<<>>)
+  ELSE IF Len(chars) > 0 /\ chars[1] = 45 THEN Err
+  ELSE Dec16(chars)
+SaltStrDec(syms) == IF AllPlain(syms) THEN SaltDec(CharsOf(syms)) ELSE Err
+
+\* SVCB "ech" (RFC 9460 14.3.2 + appendix A): the value is a char-string,
+\* decoded to octets first (every escape is resolved, a non-ASCII character is
+\* an error); the octets must then be non-empty Base64 text.
+EchDec(syms) ==
+  LET o == [i \in 1..Len(syms) |-> SymOctet(syms[i])]
+      ch == [i \in 1..Len(syms) |-> IF IsPrintable(o[i]) THEN o[i] ELSE NoChar]
+  IN IF \E i \in 1..Len(syms) : o[i] = NoChar THEN Err
+     ELSE IF Dec64(ch) = Ok(<<>>) THEN Err ELSE Dec64(ch)
+
+\* A malformed escape sequence - [k |-> "x", v |-> variant]: a backslash at
+\* the end of a token (0), followed by one digit only (1), by a digit and a
+\* non-digit (2), by three digits above 255 (3), by a non-ASCII character (4) -
+\* is not a symbol at all: text that contains one is not well-formed and every
+\* reader of written text must reject it.
+HasBad(t) == \E i \in 1..Len(t) : t[i].k = "x"
+\* D_iter_bad_escape_ends_token: the token loops of IterScanner iterate
+\* `Symbols`, which merely *ends* at a malformed escape; the rest of the
+\* token is silently dropped and the conversion carries on with the next one
+RECURSIVE TruncAtBad(_, _)
+TruncAtBad(t, dropping) ==
+  IF t = <<>> THEN <<>>
+  ELSE LET h == Head(t)
+       IN IF h.k = "e" THEN <<h>> \o TruncAtBad(Tail(t), FALSE)
+          ELSE IF dropping \/ h.k = "x" THEN TruncAtBad(Tail(t), TRUE)
+          ELSE <<h>> \o TruncAtBad(Tail(t), FALSE)
+
+\* ---- the three SymbolConverters, transcribed ----
+\* One step = one `process_symbol` call: the new state and the call's result,
+\* Ok(data appended to the output) or Err.  `process_tail` likewise.  A
+\* scanner abandons the conversion at the first error.
+
+CInit16 == [buf |-> 0, pending |-> FALSE]
+CChar16(st, ch) ==
+  LET v == IF ch > 127 THEN 255 ELSE B16Val(ch)                    \* char::to_digit(16)
+  IN IF v = 255 THEN [st |-> st, res |-> Err]
+     ELSE IF st.pending
+          THEN [st |-> [buf |-> st.buf + v, pending |-> FALSE], res |-> Ok(<<st.buf + v>>)]
+          ELSE [st |-> [buf |-> 16 * v, pending |-> TRUE], res |-> Ok(<<>>)]
+CTail16(st) == IF st.pending THEN Err ELSE Ok(<<>>)
+
+CInit32 == [inp |-> <<0, 0, 0, 0, 0, 0, 0, 0>>, next |-> 0]
+CChar32(st, ch) ==
+  IF ch > 127 \/ B32Val(ch) = 255 THEN [st |-> st, res |-> Err]
+  ELSE LET inp == [st.inp EXCEPT ![st.next + 1] = B32Val(ch)]
+           nx == st.next + 1
+       IN IF nx = 8
+          THEN [st |-> [inp |-> inp, next |-> 0], res |-> Ok([k \in 1..5 |-> Oct32(inp, k - 1)])]
+          ELSE [st |-> [inp |-> inp, next |-> nx], res |-> Ok(<<>>)]
+CTail32(st) ==
+  IF st.next \in {1, 3, 6} THEN Err
+  ELSE LET n == CASE st.next = 0 -> 0 [] st.next = 2 -> 1 [] st.next = 4 -> 2
+                  [] st.next = 5 -> 3 [] st.next = 7 -> 4
+       IN Ok([k \in 1..n |-> Oct32(st.inp, k - 1)])
+
+CInit64 == [inp |-> <<0, 0, 0, 0>>, next |-> 0]
+CChar64(st, ch) ==
+  IF st.next = EOFMARK THEN [st |-> st, res |-> Err]                \* trailing data
+  ELSE IF (IF ch = PAD THEN st.next < 2 ELSE (ch > 127 \/ B64Val(ch) = 255))
+  THEN [st |-> st, res |-> Err]
+  ELSE LET inp == [st.inp EXCEPT ![st.next + 1] = IF ch = PAD THEN PADMARK ELSE B64Val(ch)]
+           nx == st.next + 1
+           o1 == Or(Shl(inp[1], 2), Shr(inp[2], 4))
+           o2 == Or(Shl(inp[2], 4), Shr(inp[3], 2))
+           o3 == Or(Shl(inp[3], 6), inp[4])
+       IN IF nx < 4 THEN [st |-> [inp |-> inp, next |-> nx], res |-> Ok(<<>>)]
+          ELSE IF inp[3] = PADMARK
+          THEN IF inp[4] = PADMARK
+               THEN [st |-> [inp |-> inp, next |-> EOFMARK], res |-> Ok(<<o1>>)]
+               ELSE [st |-> [inp |-> inp, next |-> 4], res |-> Err]          \* "xx=x"
+          ELSE IF inp[4] = PADMARK
+          THEN [st |-> [inp |-> inp, next |-> EOFMARK], res |-> Ok(<<o1, o2>>)]
+          ELSE [st |-> [inp |-> inp, next |-> 0], res |-> Ok(<<o1, o2, o3>>)]
+CTail64(st) == IF (st.next % 16) # 0 THEN Err ELSE Ok(<<>>)
+
+CInitOf(codec) == CASE codec = "b16" -> CInit16 [] codec = "b32" -> CInit32 [] codec = "b64" -> CInit64
+CCharOf(codec, st, ch) ==
+  CASE codec = "b16" -> CChar16(st, ch) [] codec = "b32" -> CChar32(st, ch) [] codec = "b64" -> CChar64(st, ch)
+CTailOf(codec, st) ==
+  CASE codec = "b16" -> CTail16(st) [] codec = "b32" -> CTail32(st) [] codec = "b64" -> CTail64(st)
+
+\* process_symbol: the end of a token is ignored, a symbol that denotes no
+\* character is an error, a character goes to the decoder proper
+CSymOf(codec, st, esym) ==
+  IF esym.k = "e" THEN [st |-> st, res |-> Ok(<<>>)]
+  ELSE IF SymChar(esym) = NoChar THEN [st |-> st, res |-> Err]
+  ELSE CCharOf(codec, st, SymChar(esym))
+
+\* A whole conversion as a scanner performs it: the per-call results up to
+\* and including the first error, and the overall result.
+RECURSIVE ConvGo(_, _, _, _, _)
+ConvGo(codec, st, esyms, steps, out) ==
+  IF esyms = <<>>
+  THEN LET t == CTailOf(codec, st)
+       IN [steps |-> steps, tail |-> t, fin |-> IF t = Err THEN Err ELSE Ok(out \o t.ok)]
+  ELSE LET r == CSymOf(codec, st, Head(esyms))
+       IN IF r.res = Err THEN [steps |-> Append(steps, Err), tail |-> Err, fin |-> Err]
+          ELSE ConvGo(codec, r.st, Tail(esyms), Append(steps, r.res), out \o r.res.ok)
+ConvRun(codec, esyms) == ConvGo(codec, CInitOf(codec), esyms, <<>>, <<>>)
+
+\* The NSEC3 salt converter (rdata/nsec3.rs, Nsec3Salt::scan): a wrapper
+\* that decides on the first symbol
+SaltInit == [mode |-> "none", b16 |-> CInit16]
+SaltSym(st, esym) ==
+  IF st.mode = "none" /\ esym.k # "e" /\ SymChar(esym) = 45
+  THEN [st |-> [st EXCEPT !.mode = "empty"], res |-> Ok(<<>>)]
+  ELSE IF st.mode = "empty" THEN [st |-> st, res |-> Err]
+  ELSE LET r == CSymOf("b16", st.b16, esym)
+       IN [st |-> [mode |-> "b16", b16 |-> r.st], res |-> r.res]
+SaltTail(st) == IF st.mode = "b16" THEN CTail16(st.b16) ELSE Ok(<<>>)
+RECURSIVE SaltGo(_, _, _)
+SaltGo(st, esyms, out) ==
+  IF esyms = <<>>
+  THEN LET t == SaltTail(st) IN IF t = Err THEN Err ELSE Ok(out \o t.ok)
+  ELSE LET r == SaltSym(st, Head(esyms))
+       IN IF r.res = Err THEN Err ELSE SaltGo(r.st, Tail(esyms), out \o r.res.ok)
+SaltRun(esyms) == SaltGo(SaltInit, esyms, <<>>)
+
 =============================================================================
